@@ -197,6 +197,34 @@ class StmtMixin:
                     return self.ev_list([self.as_load(node.target), node.value], st, fin)
         return self.ev(load, st, lambda s, v: self.assign(node.target, v, s, node))
 
+    def infer_container_hint(self, name):
+        """type of a local that starts as an empty display, read off the parameter type of a contract it is passed to
+        (positionally) somewhere in the function under verification; None when nothing tells"""
+        if not self.cur:
+            return None
+        try:
+            fdef = self.find_def(self.cur[1])[0]
+        except Exception:
+            return None
+        mod = self.cur[1].split('.')[0]
+        for c in ast.walk(fdef):
+            if not isinstance(c, ast.Call) or not isinstance(c.func, ast.Name):
+                continue
+            con = self.contracts.get(mod + '.' + c.func.id)
+            if con is None:
+                continue
+            try:
+                params = [a.arg for a in self.find_def(mod + '.' + c.func.id)[0].args.args]
+            except Exception:
+                continue
+            for i, a in enumerate(c.args):
+                if isinstance(a, ast.Name) and a.id == name and i < len(params) and params[i] in con.params:
+                    t = con.params[params[i]]
+                    if t and t[0] in ('list', 'dict', 'set'):
+                        self.note('rule', (c.lineno, name, 'type of the local inferred from parameter %s of %s' % (params[i], c.func.id)))
+                        return t
+        return None
+
     def as_load(self, tgt):
         t = ast.parse(ast.unparse(tgt), mode='eval').body
         return ast.copy_location(t, tgt)
@@ -204,6 +232,10 @@ class StmtMixin:
     def assign(self, tgt, v, st, node):
         if isinstance(tgt, ast.Name):
             hint = self.cur[0].extra.get('locals', {}).get(tgt.id) if self.cur else None
+            if hint is None and isinstance(v, VRef) and isinstance(node, ast.Assign) \
+                    and isinstance(node.value, (ast.List, ast.Dict)) and not getattr(node.value, 'elts', None) \
+                    and not getattr(node.value, 'keys', None):
+                hint = self.infer_container_hint(tgt.id)      # x = [] / {} without a hint: typed by the contract it is passed to
             if hint is not None:
                 v = self.coerce(v, parse_type(hint), st)
             fid = st.fid
@@ -514,12 +546,22 @@ class StmtMixin:
 
     def check_invs(self, st, key, spec, kind, node):
         for n, text in enumerate(spec.get('inv', [])):
-            goal = self.ev_spec(text, st)
+            try:
+                goal = self.ev_spec(text, st)
+            except (ContractError, z3.Z3Exception, KeyError, AttributeError, TypeError) as e:
+                # the invariant does not even evaluate in this loop's state (the loop it was written for was rewritten or
+                # moved: names vanished, other types): a broken auxiliary proof step, not a crash of the checker
+                self.note('rule', (node.lineno, key, 'invariant %d does not evaluate here (%s: %s): counted as not established'
+                                   % (n, type(e).__name__, str(e)[:80])))
+                goal = z3.BoolVal(False)
             self.oblige(st, kind, '%s:%d' % (key, n), text, goal, node.lineno)
 
     def assume_invs(self, st, spec):
         for text in spec.get('inv', []):
-            z = self.ev_spec(text, st)
+            try:
+                z = self.ev_spec(text, st)
+            except (ContractError, z3.Z3Exception, KeyError, AttributeError, TypeError):
+                continue                      # reported by check_invs; nothing is assumed from it
             st.assume(z, qf=not self.has_quant(z))
 
     def has_quant(self, z):
